@@ -10,9 +10,16 @@ for m in sorted(glob.glob(os.path.join(HERE, "seeded", "*", "meta.json"))):
     if len(need) > 260:
         need = need[:257] + "..."
     det = d.get("detection", {})
+    verdict = "caught" if det.get("exit_code") == 1 else "MISSED"
+    labels = ", ".join(det.get("labels", []))
+    other = d.get("detection_by_other_property")
+    if verdict == "MISSED" and other:
+        verdict = "caught by %s" % other["property"]
+        labels = ", ".join(other["labels"])
+    if verdict == "MISSED" and d.get("not_detected_because"):
+        labels = "not caught: " + d["not_detected_because"]
     rows.append("| %s | %s | %s | %s | %s | %s |" % (
-        name, d["property"], "yes" if d["confirmed"]["kept"] else "NO",
-        "caught" if det.get("exit_code") == 1 else "MISSED", det.get("tier", ""), ", ".join(det.get("labels", []))))
+        name, d["property"], "yes" if d["confirmed"]["kept"] else "NO", verdict, det.get("tier", ""), labels))
     rows.append("| | | | | | _%s_ |" % need.replace("|", "\\|"))
 with open(os.path.join(HERE, "seeded", "SUMMARY.md"), "w") as f:
     f.write("# Seeded changes and the checks that catch them\n\n")
